@@ -177,6 +177,13 @@ func checkCorrection(src, res *jmut.Node, o c16opts, cd corrDef, srcStamps map[s
 	if o.CopyTax && srcHasTax && !hasTax {
 		return "preceding.tax", "copy_tax requested but the preceding reference has no tax summary"
 	}
+	if o.CopyTax && srcHasTax && hasTax {
+		// the reference recalculates its amounts from bases and percentages, so
+		// only those (and the keys) are compared
+		if a, b := taxRows(p.Get("tax")), taxRows(sd.Get("totals").Get("taxes")); !jmut.Equal(a, b) {
+			return "preceding.tax", fmt.Sprintf("copy_tax requested: the preceding reference carries the rows %s, the source's tax totals have %s", a.Bytes(), b.Bytes())
+		}
+	}
 	if !o.CopyTax && hasTax {
 		return "preceding.tax", "preceding reference has a tax summary although copy_tax was not requested"
 	}
@@ -187,6 +194,34 @@ func checkCorrection(src, res *jmut.Node, o c16opts, cd corrDef, srcStamps map[s
 		return "doc.issue_date", fmt.Sprintf("issue date %q requested, got %q", o.IssueDate, str(rd, "issue_date"))
 	}
 	return "", ""
+}
+
+// taxRows reduces a tax summary to what identifies its rows: category, keys,
+// extensions, bases and percentages (amounts and sums are derived from them).
+func taxRows(t *jmut.Node) *jmut.Node {
+	t = t.Clone()
+	t.Del("sum")
+	if cats := t.Get("categories"); cats != nil {
+		for _, ct := range cats.A {
+			if ct.K != jmut.Obj {
+				continue
+			}
+			ct.Del("amount")
+			ct.Del("surcharge")
+			if rates := ct.Get("rates"); rates != nil {
+				for _, rt := range rates.A {
+					if rt.K != jmut.Obj {
+						continue
+					}
+					rt.Del("amount")
+					if sc := rt.Get("surcharge"); sc != nil && sc.K == jmut.Obj {
+						sc.Del("amount")
+					}
+				}
+			}
+		}
+	}
+	return t
 }
 
 func aliasBetween(a, b any) string {
@@ -228,6 +263,46 @@ func runC16(c *Ctx) {
 		b, _ := json.Marshal(env)
 		sources = append(sources, source{it, b, "signed+stamped", st})
 	}
+	// the same invoices issued in an earlier rate period (rates named by key
+	// then resolve differently on the source's date and on the correction's)
+	nOld := 0
+	for _, it := range invs {
+		docB, err := gx.DocJSON(it.Data)
+		if err != nil {
+			continue
+		}
+		orig, err := jmut.Parse(docB)
+		if err != nil || orig.Get("totals") == nil {
+			continue
+		}
+		for _, date := range []string{"2011-06-01", "2020-08-01", "2007-03-01"} {
+			d := orig.Clone()
+			d.Set("issue_date", jmut.S(date))
+			d.Del("value_date")
+			d.Del("op_date")
+			d.Del("totals")
+			var b []byte
+			var verr error
+			if p, _ := Safely(func() {
+				env, e := gx.EnvelopDoc(d.Bytes())
+				if verr = e; e == nil {
+					if verr = env.Validate(); verr == nil {
+						b, verr = json.Marshal(env)
+					}
+				}
+			}); p != nil || verr != nil {
+				continue
+			}
+			n, _ := jmut.Parse(b)
+			if jmut.Equal(n.Get("doc").Get("totals").Get("taxes"), orig.Get("totals").Get("taxes")) {
+				continue // same rate period
+			}
+			sources = append(sources, source{it, b, "old-dated:" + date, map[string]string{}})
+			nOld++
+			break
+		}
+	}
+	c.R.Set("sources_in_an_earlier_rate_period", nOld)
 	type job struct {
 		s source
 		o c16opts
@@ -283,6 +358,11 @@ func runC16(c *Ctx) {
 					o := base
 					if len(s.stamps) > 0 && rng.IntN(2) == 0 {
 						o = withStamps(o)
+					}
+					if strings.HasPrefix(s.variant, "old-dated") {
+						o.CopyTax = true
+						jobs = append(jobs, job{s, o})
+						continue
 					}
 					switch rng.IntN(4) {
 					case 0:
@@ -346,7 +426,7 @@ func runC16(c *Ctx) {
 		rn, _ := jmut.Parse(rb)
 		if field, det := checkCorrection(sn, rn, j.o, cd, j.s.stamps); field != "" {
 			// stamps can only be carried when the source had them
-			if !(field == "preceding.stamps" && j.s.variant == "plain") {
+			if !(field == "preceding.stamps" && len(j.s.stamps) == 0) {
 				c.R.Fail("result:correct:"+field, fmt.Sprintf("%s (%s) corrected with %s: %s", j.s.it.Rel, j.s.variant, ob, det), wit())
 			}
 		}
@@ -363,7 +443,7 @@ func runC16(c *Ctx) {
 		if cd.reason && j.o.Reason == "" {
 			c.R.Fail("accepted-disallowed:"+j.s.it.Regime+":reason", fmt.Sprintf("%s: correction accepted without the reason the tables require", j.s.it.Rel), wit())
 		}
-		if len(cd.stamps) > 0 && j.s.variant == "plain" {
+		if len(cd.stamps) > 0 && len(j.s.stamps) == 0 {
 			c.R.Fail("accepted-disallowed:"+j.s.it.Regime+":stamps", fmt.Sprintf("%s: correction accepted although the source carries none of the required stamps %v", j.s.it.Rel, cd.stamps), wit())
 		}
 		if _, bad := j.o.Ext["zz-undefined-ext"]; bad {
@@ -410,7 +490,7 @@ func runC16(c *Ctx) {
 		rb, _ := json.Marshal(res)
 		sn, _ := jmut.Parse(s.env)
 		rn, _ := jmut.Parse(rb)
-		if f, det := checkReplica(sn, rn, d0, d1); f != "" {
+		if f, det := checkReplica(sn, rn, d0, d1, strings.HasPrefix(s.variant, "old-dated")); f != "" {
 			c.R.Fail("result:replicate:"+f, fmt.Sprintf("%s (%s): %s", s.it.Rel, s.variant, det), wit)
 		}
 	})
@@ -418,7 +498,7 @@ func runC16(c *Ctx) {
 	c16entryPoints(c, sources[:min(len(sources), c.N(24, 146))])
 }
 
-func checkReplica(src, res *jmut.Node, d0, d1 string) (field, detail string) {
+func checkReplica(src, res *jmut.Node, d0, d1 string, recalc bool) (field, detail string) {
 	sd, rd := src.Get("doc"), res.Get("doc")
 	if res.Get("sigs") != nil {
 		return "sigs", "replica carries signatures"
@@ -442,6 +522,25 @@ func checkReplica(src, res *jmut.Node, d0, d1 string) (field, detail string) {
 		return "doc.dates", "replica keeps the value or operation date"
 	}
 	a, b := sd.Clone(), rd.Clone()
+	if recalc {
+		// a source issued in another rate period: percentages named by key and
+		// everything derived from them follow the replica's date, so the content
+		// is compared with the source document recalculated for that date
+		a.Set("issue_date", jmut.S(str(rd, "issue_date")))
+		for _, k := range []string{"uuid", "code", "value_date", "op_date", "totals"} {
+			a.Del(k)
+		}
+		var eb []byte
+		if p, _ := Safely(func() {
+			if env, err := gx.EnvelopDoc(a.Bytes()); err == nil {
+				eb, _ = json.Marshal(env)
+			}
+		}); p != nil || eb == nil {
+			return "", ""
+		}
+		en, _ := jmut.Parse(eb)
+		a = en.Get("doc")
+	}
 	for _, n := range []*jmut.Node{a, b} {
 		for _, k := range []string{"uuid", "code", "issue_date", "value_date", "op_date"} {
 			n.Del(k)
@@ -524,7 +623,7 @@ func c16entryPoints(c *Ctx, sources []c16source) {
 		c.R.Count("cli:correct", 1)
 		if err == nil {
 			if rn, perr := jmut.Parse(so.Bytes()); perr == nil {
-				if f, det := checkCorrection(sn, rn, o, cd, s.stamps); f != "" && !(f == "preceding.stamps" && s.variant == "plain") {
+				if f, det := checkCorrection(sn, rn, o, cd, s.stamps); f != "" && !(f == "preceding.stamps" && len(s.stamps) == 0) {
 					c.R.Fail("result:cli-correct:"+f, fmt.Sprintf("`gobl correct` on %s (%s): %s", s.it.Rel, s.variant, det), wit)
 				}
 				if len(cd.types) > 0 && !cd.types["credit-note"] {
@@ -547,11 +646,11 @@ func c16entryPoints(c *Ctx, sources []c16source) {
 		c.R.Count("cli:replicate", 1)
 		if err == nil {
 			if rn, perr := jmut.Parse(so.Bytes()); perr == nil {
-				if f, det := checkReplica(sn, rn, d0, d1); f != "" {
+				if f, det := checkReplica(sn, rn, d0, d1, strings.HasPrefix(s.variant, "old-dated")); f != "" {
 					c.R.Fail("result:cli-replicate:"+f, fmt.Sprintf("`gobl replicate` on %s: %s", s.it.Rel, det), wit)
 				}
 			}
-		} else if s.variant == "plain" {
+		} else if len(s.stamps) == 0 {
 			c.R.Count("cli:replicate-refused", 1)
 		}
 		// bulk actions
@@ -582,12 +681,12 @@ func c16entryPoints(c *Ctx, sources []c16source) {
 			switch r.ReqID {
 			case "c":
 				c.R.Count("bulk:correct-accepted", 1)
-				if f, det := checkCorrection(sn, rn, o, cd, s.stamps); f != "" && !(f == "preceding.stamps" && s.variant == "plain") {
+				if f, det := checkCorrection(sn, rn, o, cd, s.stamps); f != "" && !(f == "preceding.stamps" && len(s.stamps) == 0) {
 					c.R.Fail("result:bulk-correct:"+f, fmt.Sprintf("bulk correct on %s (%s): %s", s.it.Rel, s.variant, det), wit)
 				}
 			case "r":
 				c.R.Count("bulk:replicate", 1)
-				if f, det := checkReplica(sn, rn, d0, d1); f != "" {
+				if f, det := checkReplica(sn, rn, d0, d1, strings.HasPrefix(s.variant, "old-dated")); f != "" {
 					c.R.Fail("result:bulk-replicate:"+f, fmt.Sprintf("bulk replicate on %s: %s", s.it.Rel, det), wit)
 				}
 			}
